@@ -50,3 +50,13 @@ Theorem C16_set_data_writes_register : forall a k v a' k' d,
   iget a' k' (iset a k v d) = if Nat.eqb a' a && Nat.eqb k' k then Some v else iget a' k' d.
 Proof. exact iget_iset. Qed.
 Print Assumptions C16_set_data_writes_register.
+
+(* the ordering clause over the rest of the run: once A has begun its step at t, its agent B never again has an outstanding
+   step before act t d - so A does not go beyond t while a step of B at or before t is pending, at any later point *)
+From MV Require Import Sched.Later.
+Theorem C16_agent_bound_persists : forall st, static_ok st -> forall s i t m s',
+  reached st s -> apply st s (EvBegin i t m) = Ok s' ->
+  forall evs l, run st s' evs = Ok l -> forall sr, In sr (s' :: l) ->
+  forall j d c, In (j,d) (succ_wait st i) -> In c (cands (sr j)) -> tle (act t d) c = true.
+Proof. exact async_bound_over_runs. Qed.
+Print Assumptions C16_agent_bound_persists.
